@@ -29,13 +29,20 @@ class Eager:
         self.x = x
 
 
+class Weird:
+    """repr is not an expression: a struct sequence holding one cannot have its field names
+    recovered from its repr"""
+    def __repr__(self):
+        return '<weird>'
+
+
 class Shade(enum.Enum):
     DARK = 1
     LIGHT = 2
 
 
 Point = collections.namedtuple('Point', ['x', 'y'])
-for _c in (LazyA, LazyB, Eager, Shade, Point):
+for _c in (LazyA, LazyB, Eager, Shade, Point, Weird):
     _c.__module__ = 'c19corpus'
 
 
@@ -95,6 +102,7 @@ def build():
         types.MappingProxyType({'k': (1, 2)}), uuid.UUID(int=12345), Shade.DARK,
         types.SimpleNamespace(b=1, a='x'), Point(1, [2, 3]), functools.partial(int, base=2),
         ValueError('bad', 3), pathlib.PurePosixPath('/usr/lib/x'), time.gmtime(0),
+        time.struct_time((1, 2, 3, 4, 5, 6, 7, 8, Weird())), time.gmtime(10 ** 9),
         LazyA([1, 2]), LazyB({'k': LazyA(1)}), Eager((1, LazyB(2))), [LazyB(1), time.gmtime(86400)],
         {'nested': [Shade.LIGHT, Point(LazyA(0), None)], 'words ' * 8: 'long string value ' * 6},
     ]
